@@ -5,6 +5,7 @@
     item it is relocating (removed from one probe set, not yet put into another), the items of the old tables it
     still has to re-insert (resize).  Globally the trace annotated with linearization points. *)
 From Coq Require Import ZArith List Bool Lia PeanoNat.
+From Coq Require String.
 From LV Require Import Base.Conc Base.Events Base.Lin Spec.Specs Proofs.LinProofs
      Model.CuckooConc Proofs.StripedConcSpec.
 Import ListNotations.
@@ -78,8 +79,9 @@ Proof. intros t' H. unfold view. now apply setv_other. Qed.
 Lemma frame_refl a t : Conc.frame view t a a.
 Proof. intros t' H. reflexivity. Qed.
 
+Module DroppedName. Import String. Definition name : string := "dropped"%string. End DroppedName.
 Definition dropped (tr : list (nat * ev)) : Prop :=
-  exists t k, In (t, EvCli "dropped" [k]) tr.
+  exists t k, In (t, EvCli DroppedName.name [k]) tr.
 
 Section Inv.
   Variable cf : conf.
@@ -102,7 +104,7 @@ Section Inv.
     forall tb, tb < 2 -> khas (fst x) (T g tb (hx x tb mod S (mask g))) = false.
 
   Record Core (g : G) (a : Aux) : Prop := mkCore {
-    c_spin0 : forall l, (forall t, ~ In l (held a t)) -> rspin g l = 0;
+    c_spin0 : forall l, rspin g l <> 0 -> exists t, In l (held a t);
     c_spin : forall t l, In l (held a t) -> rspin g l = cnt (held a t) l;
     c_excl : forall t t' l, In l (held a t) -> In l (held a t') -> t = t';
     c_rown : forall l, rown g l = 0 \/ exists t, rown g l = S t /\ In l (held a t) /\ mic a t <> MTaken l /\ mic a t <> MRel l;
@@ -135,4 +137,490 @@ Section Inv.
 
   Definition Inv (g : G) (a : Aux) (tr : list (nat * ev)) : Prop := Core g a /\ Abs g a tr.
 
+
+  Arguments c_spin0 {g a}. Arguments c_spin {g a}. Arguments c_excl {g a}. Arguments c_rown {g a}. Arguments c_rown2 {g a}.
+  Arguments c_mic {g a}. Arguments c_range {g a}. Arguments c_mask {g a}. Arguments c_reg {g a}. Arguments c_len {g a}.
+  Arguments c_placed {g a}. Arguments c_nodup {g a}. Arguments c_cross {g a}. Arguments c_fly {g a}. Arguments c_fly1 {g a}.
+  Arguments c_pend {g a}. Arguments c_pend2 {g a}.
+
+  Lemma held_same a t v : held (setv a t v) t = v_held v.  Proof. unfold held. now rewrite setv_same. Qed.
+  Lemma held_other a t v t' : t' <> t -> held (setv a t v) t' = held a t'.  Proof. unfold held. intros. now rewrite setv_other. Qed.
+  Lemma mic_same a t v : mic (setv a t v) t = v_mic v.  Proof. unfold mic. now rewrite setv_same. Qed.
+  Lemma mic_other a t v t' : t' <> t -> mic (setv a t v) t' = mic a t'.  Proof. unfold mic. intros. now rewrite setv_other. Qed.
+  Lemma fly_same a t v : fly (setv a t v) t = v_fly v.  Proof. unfold fly. now rewrite setv_same. Qed.
+  Lemma fly_other a t v t' : t' <> t -> fly (setv a t v) t' = fly a t'.  Proof. unfold fly. intros. now rewrite setv_other. Qed.
+  Lemma pend_same a t v : pend (setv a t v) t = v_pend v.  Proof. unfold pend. now rewrite setv_same. Qed.
+  Lemma pend_other a t v t' : t' <> t -> pend (setv a t v) t' = pend a t'.  Proof. unfold pend. intros. now rewrite setv_other. Qed.
+
+  (** *** a step of thread [t] on the lock words: generic lemma *)
+  Lemma Core_lock g g' a t v' :
+    Core g a ->
+    mask g' = mask g -> tabs g' = tabs g ->
+    v_fly v' = fly a t -> v_pend v' = pend a t ->
+    (forall l, In l (v_held v') -> rspin g' l = cnt (v_held v') l /\ forall t0, t0 <> t -> ~ In l (held a t0)) ->
+    (forall l, rspin g' l <> 0 -> In l (v_held v') \/ exists t0, t0 <> t /\ In l (held a t0)) ->
+    (forall l t0, t0 <> t -> In l (held a t0) -> rspin g' l = rspin g l /\ rown g' l = rown g l) ->
+    (forall l, (forall t0, t0 <> t -> ~ In l (held a t0)) ->
+       rown g' l = 0 \/ (rown g' l = S t /\ In l (v_held v') /\ v_mic v' <> MTaken l /\ v_mic v' <> MRel l)) ->
+    (forall l, In l (v_held v') -> v_mic v' <> MTaken l -> v_mic v' <> MRel l -> rown g' l = S t) ->
+    (forall l, v_mic v' = MTaken l \/ v_mic v' = MRel l -> cnt (v_held v') l = 1) ->
+    (forall gg tb i, In (gg, tb, i) (v_held v') -> gg = 0 /\ tb < 2 /\ i < L) ->
+    (has0 v' -> v_mask v' = mask g) ->
+    (forall tb b, tb < 2 -> auth v' tb b -> v_reg v' tb b = T g tb b) ->
+    (forall x, In x (fly a t) -> has0 v' /\ In (0, 0, h0 x mod L) (v_held v') /\ In (0, 1, h1 x mod L) (v_held v')) ->
+    (pend a t <> [] -> all0 v') ->
+    Core g' (setv a t v').
+  Proof.
+    intros Hc Cm Ct Hfly Hpend L1 L1' L2 L3 L3' Lm Lr Lmask Lreg Lfl Lpe.
+    pose proof Hc as [K1 K2 K3 K4 K5 K6 K7 K8 K9 K10 K11 K12 K13 K14 K15 K16 K17].
+    assert (HT : forall tb b, T g' tb b = T g tb b) by (intros; unfold T; now rewrite Ct).
+    assert (Habs : forall x, absent g' x <-> absent g x).
+    { intros x. unfold absent. rewrite Cm. setoid_rewrite HT. tauto. }
+    constructor.
+    - intros l Hn. destruct (L1' l Hn) as [H|(t0 & Hne & H)]; [exists t; now rewrite held_same|exists t0; now rewrite held_other].
+    - intros t0 l H. destruct (Nat.eq_dec t0 t) as [->|Hne].
+      + rewrite held_same in *. apply (L1 l H).
+      + rewrite held_other in * by exact Hne. rewrite (proj1 (L2 l t0 Hne H)). now apply K2.
+    - intros t1 t2 l H1 H2.
+      destruct (Nat.eq_dec t1 t) as [->|N1]; destruct (Nat.eq_dec t2 t) as [->|N2]; auto.
+      + rewrite held_same in H1. rewrite held_other in H2 by exact N2. exfalso. eapply (proj2 (L1 l H1)); eauto.
+      + rewrite held_same in H2. rewrite held_other in H1 by exact N1. exfalso. eapply (proj2 (L1 l H2)); eauto.
+      + rewrite held_other in H1 by exact N1. rewrite held_other in H2 by exact N2. eapply K3; eauto.
+    - intros l.
+      assert (D : (exists t0, t0 <> t /\ In l (held a t0)) \/ (forall t0, t0 <> t -> ~ In l (held a t0))).
+      { destruct (K4 l) as [H|(t0 & H1 & H2 & H3 & H4)].
+        - destruct (Nat.eq_dec (rspin g l) 0) as [E|E].
+          + right. intros t0 Hne Hin. rewrite (K2 t0 l Hin) in E. apply (count_occ_not_In lk_dec) in E. contradiction.
+          + destruct (K1 l E) as (t0 & Hin). destruct (Nat.eq_dec t0 t) as [->|Hne]; [|left; eauto].
+            right. intros t1 Hn1 Hin1. apply Hn1. eapply K3; eauto.
+        - destruct (Nat.eq_dec t0 t) as [->|Hne]; [|left; eauto]. right. intros t1 Hn1 Hin1. apply Hn1. eapply K3; eauto. }
+      destruct D as [(t0 & Hne & Hin)|Hno].
+      + destruct (L2 l t0 Hne Hin) as [_ E]. rewrite E. destruct (K4 l) as [H|(t1 & H1 & H2 & H3 & H4)]; [now left|].
+        assert (t1 = t0) by (eapply K3; eauto). subst t1. right. exists t0. rewrite held_other, mic_other by exact Hne. auto.
+      + destruct (L3 l Hno) as [H|(H1 & H2 & H3 & H4)]; [now left|]. right. exists t. rewrite held_same, mic_same. auto.
+    - intros t0 l H M1 M2. destruct (Nat.eq_dec t0 t) as [->|Hne].
+      + rewrite held_same in H. rewrite mic_same in M1, M2. auto.
+      + rewrite held_other in H by exact Hne. rewrite mic_other in M1, M2 by exact Hne.
+        rewrite (proj2 (L2 l t0 Hne H)). auto.
+    - intros t0 l H. destruct (Nat.eq_dec t0 t) as [->|Hne].
+      + rewrite mic_same in H. rewrite held_same. auto.
+      + rewrite mic_other in H by exact Hne. rewrite held_other by exact Hne. auto.
+    - intros t0 gg tb i H. destruct (Nat.eq_dec t0 t) as [->|Hne].
+      + rewrite held_same in H. eauto.
+      + rewrite held_other in H by exact Hne. eauto.
+    - intros t0 H. rewrite Cm. destruct (Nat.eq_dec t0 t) as [->|Hne].
+      + rewrite setv_same in *. symmetry. auto.
+      + rewrite setv_other in * by exact Hne. auto.
+    - intros t0 tb b Htb H. rewrite HT. destruct (Nat.eq_dec t0 t) as [->|Hne].
+      + rewrite setv_same in *. symmetry. auto.
+      + rewrite setv_other in * by exact Hne. auto.
+    - rewrite Cm, Ct. exact K10.
+    - intros tb b x Htb. rewrite HT, Cm. apply K11; auto.
+    - intros tb b. rewrite HT. apply K12.
+    - intros b b' x y. rewrite !HT. apply K13.
+    - intros t0 x H. rewrite Habs. destruct (Nat.eq_dec t0 t) as [->|Hne].
+      + rewrite fly_same, Hfly in H. rewrite setv_same, held_same. destruct (Lfl x H) as (A1 & A2 & A3).
+        split; auto. split; auto. split; auto. apply (K14 t x H).
+      + rewrite fly_other in H by exact Hne. rewrite setv_other, held_other by exact Hne. apply K14; auto.
+    - intros t0. destruct (Nat.eq_dec t0 t) as [->|Hne]; [rewrite fly_same, Hfly|rewrite fly_other by exact Hne]; apply K15.
+    - intros t0 H. destruct (Nat.eq_dec t0 t) as [->|Hne].
+      + rewrite pend_same, Hpend in H. rewrite setv_same. auto.
+      + rewrite pend_other in H by exact Hne. rewrite setv_other by exact Hne. auto.
+    - intros t0. destruct (Nat.eq_dec t0 t) as [->|Hne].
+      + rewrite pend_same, fly_same, Hpend, Hfly. setoid_rewrite Habs. apply K17.
+      + rewrite pend_other, fly_other by exact Hne. setoid_rewrite Habs. apply K17.
+  Qed.
+
+  (** *** authority is exclusive *)
+  Lemma stripe_mod (g : G) a hh : Core g a -> (hh mod S (mask g)) mod L = hh mod L.
+  Proof.
+    intros Hc. destruct (c_len Hc) as (_ & _ & e & He & Hd). rewrite Hd.
+    destruct (Nat.eq_dec L 0) as [E|E]; [rewrite E; reflexivity|].
+    rewrite Nat.mod_mul_r by lia. rewrite (Nat.mul_comm L). rewrite Nat.mod_add by lia. apply Nat.mod_mod. lia.
+  Qed.
+
+  Lemma auth_excl g a t t0 tb b : Core g a -> auth (a_view a t) tb b -> t0 <> t ->
+    ~ has0 (a_view a t0) \/ (~ In (0, tb, b mod L) (held a t0) /\ ~ all0 (a_view a t0)) .
+  Proof.
+    intros Hc [(i & Hi) Ha] Hne.
+    assert (N0 : ~ In (0, 0, i) (held a t0)) by (intros H; apply Hne; eapply (c_excl Hc); eauto).
+    destruct Ha as [Ha|Ha].
+    - right. split.
+      + intros H. apply Hne. eapply (c_excl Hc); eauto.
+      + intros H. apply N0. apply H. apply (c_range Hc t 0 0 i Hi).
+    - left. intros (j & Hj). apply Hne. eapply (c_excl Hc); [exact Hj|]. apply Ha. apply (c_range Hc t0 0 0 j Hj).
+  Qed.
+
+  Lemma auth_other_none g a t t0 tb b : Core g a -> auth (a_view a t) tb b -> t0 <> t -> ~ auth (a_view a t0) tb b.
+  Proof.
+    intros Hc Ha Hne [H0 H1]. destruct (auth_excl g a t t0 tb b Hc Ha Hne) as [N|[N1 N2]]; [contradiction|].
+    destruct H1; contradiction.
+  Qed.
+
+  (** the probe sets of an item in flight / pending belong to the thread that has it *)
+  Lemma fly_auth g a t x tb : Core g a -> In x (fly a t) -> tb < 2 -> auth (a_view a t) tb (hx x tb mod S (mask g)).
+  Proof.
+    intros Hc Hin Htb. destruct (c_fly Hc t x Hin) as (A0 & A1 & A2 & _). split; auto. left.
+    rewrite (stripe_mod g a _ Hc). destruct tb as [|[|tb]]; [exact A1|exact A2|lia].
+  Qed.
+
+  (** *** a step of thread [t] that replaces one probe set it has authority over *)
+  Lemma Core_table g g' a t v' tb b new :
+    Core g a ->
+    rspin g' = rspin g -> rown g' = rown g -> mask g' = mask g -> tabs g' = set_bkt (tabs g) tb b new ->
+    tb < 2 -> b < S (mask g) -> auth (a_view a t) tb b ->
+    v_held v' = held a t -> v_mic v' = mic a t -> v_mask v' = v_mask (a_view a t) ->
+    (forall tb' b', v_reg v' tb' b' = if Nat.eqb tb' tb && Nat.eqb b' b then new else v_reg (a_view a t) tb' b') ->
+    (forall x, In x new -> hx x tb mod S (mask g) = b) -> NoDup (keys new) ->
+    (forall x y b', In x new -> In y (T g (other tb) b') -> fst x <> fst y) ->
+    (forall x, In x (v_fly v') -> has0 (a_view a t) /\ In (0, 0, h0 x mod L) (held a t) /\ In (0, 1, h1 x mod L) (held a t) /\
+                                  (forall tb', tb' < 2 -> khas (fst x) (if Nat.eqb tb' tb && Nat.eqb (hx x tb' mod S (mask g)) b then new else T g tb' (hx x tb' mod S (mask g))) = false)) ->
+    length (v_fly v') <= 1 ->
+    (v_pend v' <> [] -> all0 (a_view a t)) -> NoDup (keys (v_pend v')) ->
+    (forall x, In x (v_pend v') ->
+       (forall tb', tb' < 2 -> khas (fst x) (if Nat.eqb tb' tb && Nat.eqb (hx x tb' mod S (mask g)) b then new else T g tb' (hx x tb' mod S (mask g))) = false) /\
+       forall y, In y (v_fly v') -> fst y <> fst x) ->
+    Core g' (setv a t v').
+  Proof.
+    intros Hc Cs Co Cm Ct Htb Hb Hau Hh Hmi Hma Hreg Hpl Hnd Hcr Hfl Hfl1 Hpe Hpn Hpa.
+    pose proof Hc as [K1 K2 K3 K4 K5 K6 K7 K8 K9 K10 K11 K12 K13 K14 K15 K16 K17].
+    destruct K10 as (Len2 & LenT & Div).
+    assert (Hblen : b < length (nth tb (tabs g) [])) by (rewrite LenT; auto).
+    assert (Htlen : tb < length (tabs g)) by lia.
+    assert (HTs : T g' tb b = new) by (unfold T; rewrite Ct; now apply get_set_bkt_same).
+    assert (HTo : forall tb' b', (tb', b') <> (tb, b) -> T g' tb' b' = T g tb' b') by (intros; unfold T; rewrite Ct; now apply get_set_bkt_other).
+    assert (HTif : forall tb' b', T g' tb' b' = if Nat.eqb tb' tb && Nat.eqb b' b then new else T g tb' b').
+    { intros tb' b'. destruct (Nat.eqb_spec tb' tb) as [->|E1]; destruct (Nat.eqb_spec b' b) as [->|E2]; cbn; auto; apply HTo; congruence. }
+    assert (Hheld : forall t0, held (setv a t v') t0 = held a t0).
+    { intros t0. destruct (Nat.eq_dec t0 t) as [->|Hne]; [now rewrite held_same|now rewrite held_other]. }
+    assert (Hmic : forall t0, mic (setv a t v') t0 = mic a t0).
+    { intros t0. destruct (Nat.eq_dec t0 t) as [->|Hne]; [now rewrite mic_same|now rewrite mic_other]. }
+    assert (Hhas0 : forall t0, has0 (a_view (setv a t v') t0) <-> has0 (a_view a t0)).
+    { intros t0. unfold has0. fold (held (setv a t v') t0). fold (held a t0). now rewrite Hheld. }
+    assert (Hall0 : forall t0, all0 (a_view (setv a t v') t0) <-> all0 (a_view a t0)).
+    { intros t0. unfold all0. fold (held (setv a t v') t0). fold (held a t0). now rewrite Hheld. }
+    assert (Hauth : forall t0 tb' b', auth (a_view (setv a t v') t0) tb' b' <-> auth (a_view a t0) tb' b').
+    { intros t0 tb' b'. unfold auth. rewrite Hhas0, Hall0. fold (held (setv a t v') t0). fold (held a t0). now rewrite Hheld. }
+    (* other threads have nothing in flight / pending that concerns this probe set *)
+    assert (Habs_other : forall t0 x, t0 <> t -> (forall tb', tb' < 2 -> auth (a_view a t0) tb' (hx x tb' mod S (mask g))) -> absent g x -> absent g' x).
+    { intros t0 x Hne Hax Hab tb' Htb'. rewrite Cm, HTif.
+      destruct (Nat.eqb_spec tb' tb) as [->|E1]; destruct (Nat.eqb_spec (hx x tb mod S (mask g)) b) as [E2|E2]; cbn; try (apply Hab; auto).
+      exfalso. eapply (auth_other_none g a t t0 tb b Hc Hau Hne). rewrite <- E2. apply Hax. exact Htb. }
+    constructor.
+    - intros l. rewrite Cs. setoid_rewrite Hheld. apply K1.
+    - intros t0 l. rewrite Cs, Hheld. apply K2.
+    - intros t1 t2 l. rewrite !Hheld. apply K3.
+    - intros l. rewrite Co. setoid_rewrite Hheld. setoid_rewrite Hmic. apply K4.
+    - intros t0 l. rewrite Co, Hheld, Hmic. apply K5.
+    - intros t0 l. rewrite Hmic, Hheld. apply K6.
+    - intros t0 gg tb' i. rewrite Hheld. apply K7.
+    - intros t0. rewrite Hhas0, Cm. destruct (Nat.eq_dec t0 t) as [->|Hne].
+      + rewrite setv_same, Hma. apply K8.
+      + rewrite setv_other by exact Hne. apply K8.
+    - intros t0 tb' b' Htb'. rewrite Hauth. intros Ha. destruct (Nat.eq_dec t0 t) as [->|Hne].
+      + rewrite setv_same, Hreg, HTif. destruct (Nat.eqb tb' tb && Nat.eqb b' b); auto.
+      + rewrite setv_other by exact Hne. rewrite HTo; [auto|]. intros E. inversion E; subst.
+        eapply (auth_other_none g a t t0 tb b); eauto.
+    - rewrite Cm, Ct. split; [unfold set_bkt; now rewrite set_nth_length|]. split; [|exact Div].
+      intros tb' Htb'. unfold set_bkt. destruct (Nat.eq_dec tb' tb) as [->|E].
+      + rewrite nth_set_nth_same by exact Htlen. rewrite set_nth_length. auto.
+      + rewrite nth_set_nth_other by auto. auto.
+    - intros tb' b' x Htb'. rewrite Cm, HTif.
+      destruct (Nat.eqb_spec tb' tb) as [->|E1]; destruct (Nat.eqb_spec b' b) as [->|E2]; cbn [andb];
+        first [apply Hpl | apply K11; exact Htb'].
+    - intros tb' b'. rewrite HTif. destruct (Nat.eqb tb' tb && Nat.eqb b' b); [exact Hnd|apply K12].
+    - intros b1 b2 x y. rewrite !HTif. destruct tb as [|[|tb]]; [| |lia]; cbn [Nat.eqb andb].
+      + destruct (Nat.eqb_spec b1 b) as [->|E]; [|apply K13]. intros Hx Hy. eapply (Hcr x y b2); eauto.
+      + destruct (Nat.eqb_spec b2 b) as [->|E]; [|apply K13]. intros Hx Hy. intros E'. eapply (Hcr y x b1); eauto.
+    - intros t0 x. rewrite Hheld, Hhas0. destruct (Nat.eq_dec t0 t) as [->|Hne].
+      + rewrite fly_same. intros H. destruct (Hfl x H) as (A0 & A1 & A2 & A3). split; auto. split; auto. split; auto.
+        intros tb' Htb'. rewrite Cm, HTif. apply A3; auto.
+      + rewrite fly_other by exact Hne. intros H. destruct (K14 t0 x H) as (A0 & A1 & A2 & A3). split; auto. split; auto. split; auto.
+        eapply Habs_other; eauto. intros tb' Htb'. eapply fly_auth; eauto.
+    - intros t0. destruct (Nat.eq_dec t0 t) as [->|Hne]; [now rewrite fly_same|rewrite fly_other by exact Hne; apply K15].
+    - intros t0. rewrite Hall0. destruct (Nat.eq_dec t0 t) as [->|Hne]; [rewrite pend_same; auto|rewrite pend_other by exact Hne; apply K16].
+    - intros t0. destruct (Nat.eq_dec t0 t) as [->|Hne].
+      + rewrite pend_same, fly_same. split; auto. intros x H. destruct (Hpa x H) as [A B]. split; auto.
+        intros tb' Htb'. rewrite Cm, HTif. apply A; auto.
+      + rewrite pend_other, fly_other by exact Hne. destruct (K17 t0) as [A B]. split; auto.
+        intros x H. destruct (B x H) as [B1 B2]. split; auto.
+        (* a thread with pending items holds every table-0 lock: it cannot be another thread *)
+        exfalso. assert (Hp : pend a t0 <> []) by (intros E; rewrite E in H; destruct H).
+        pose proof (K16 t0 Hp) as Ha0. destruct Hau as [(i & Hi) _].
+        apply Hne. eapply K3; [apply Ha0; apply (K7 t 0 0 i Hi)|exact Hi].
+  Qed.
+
+  (** *** all the items of the tables, as one list *)
+  Lemma keys_app (l1 l2 : list item) : keys (l1 ++ l2) = keys l1 ++ keys l2.
+  Proof. unfold keys. apply map_app. Qed.
+
+  Lemma NoDup_app_intro {A} (l1 l2 : list A) : NoDup l1 -> NoDup l2 -> (forall x, In x l1 -> ~ In x l2) -> NoDup (l1 ++ l2).
+  Proof.
+    induction l1 as [|x r IH]; intros H1 H2 H; cbn; auto. inversion H1; subst. constructor.
+    - rewrite in_app_iff. intros [K|K]; [contradiction|]. eapply H; [left; reflexivity|exact K].
+    - apply IH; auto. intros y Hy. apply H. now right.
+  Qed.
+
+  Lemma nodup_keys_concat (bs : list (list item)) :
+    (forall b, NoDup (keys (nth b bs []))) ->
+    (forall b b' x y, In x (nth b bs []) -> In y (nth b' bs []) -> fst x = fst y -> b = b') ->
+    NoDup (keys (List.concat bs)).
+  Proof.
+    induction bs as [|b0 r IH]; intros Hn Hd; cbn; [constructor|].
+    rewrite keys_app. apply NoDup_app_intro.
+    - apply (Hn 0).
+    - apply IH.
+      + intros b. apply (Hn (S b)).
+      + intros b b' x y Hx Hy E. specialize (Hd (S b) (S b') x y Hx Hy E). lia.
+    - intros k Hk Hk'. unfold keys in Hk, Hk'. apply in_map_iff in Hk. apply in_map_iff in Hk'.
+      destruct Hk as (x & <- & Hx). destruct Hk' as (y & E & Hy). apply in_concat in Hy. destruct Hy as (l & Hl & Hy).
+      apply In_nth with (d := []) in Hl. destruct Hl as (n & _ & En). subst l.
+      specialize (Hd 0 (S n) x y Hx Hy (eq_sym E)). discriminate.
+  Qed.
+
+  Lemma in_concat_nth (bs : list (list item)) x : In x (List.concat bs) <-> exists b, In x (nth b bs []).
+  Proof.
+    rewrite in_concat. split.
+    - intros (l & Hl & Hx). apply In_nth with (d := []) in Hl. destruct Hl as (n & _ & E). exists n. now rewrite E.
+    - intros (b & Hx). destruct (Nat.lt_ge_cases b (length bs)) as [H|H].
+      + exists (nth b bs []). split; auto. now apply nth_In.
+      + rewrite nth_overflow in Hx by exact H. destruct Hx.
+  Qed.
+
+  Definition all_items (g : G) : list item := List.concat (List.concat (tabs g)).
+
+  Lemma all_items_in g a x : Core g a -> (In x (all_items g) <-> exists tb b, tb < 2 /\ In x (T g tb b)).
+  Proof.
+    intros Hc. destruct (c_len Hc) as (L2 & _). unfold all_items, T, get_bkt.
+    destruct (tabs g) as [|t0 [|t1 [|t2 r]]]; cbn in L2; try discriminate. cbn [List.concat]. rewrite app_nil_r, concat_app, in_app_iff, !in_concat_nth.
+    split.
+    - intros [(b & H)|(b & H)]; [exists 0, b|exists 1, b]; split; auto.
+    - intros (tb & b & Htb & H). destruct tb as [|[|tb]]; [left|right|lia]; exists b; exact H.
+  Qed.
+
+  Lemma all_items_nodup g a : Core g a -> NoDup (keys (all_items g)).
+  Proof.
+    intros Hc. destruct (c_len Hc) as (L2 & _). unfold all_items.
+    pose proof (c_nodup Hc) as Hn. pose proof (c_placed Hc) as Hp. pose proof (c_cross Hc) as Hx. unfold T, get_bkt in *.
+    destruct (tabs g) as [|t0 [|t1 [|t2 r]]]; cbn in L2; try discriminate. cbn [List.concat]. rewrite app_nil_r, concat_app, keys_app.
+    apply NoDup_app_intro.
+    - apply nodup_keys_concat; [apply (Hn 0)|]. intros b b' x y H1 H2 E.
+      rewrite <- (Hp 0 b x), <- (Hp 0 b' y) by (auto; lia). unfold hx. now rewrite E.
+    - apply nodup_keys_concat; [apply (Hn 1)|]. intros b b' x y H1 H2 E.
+      rewrite <- (Hp 1 b x), <- (Hp 1 b' y) by (auto; lia). unfold hx. now rewrite E.
+    - intros k Hk Hk'. unfold keys in Hk, Hk'. apply in_map_iff in Hk. apply in_map_iff in Hk'.
+      destruct Hk as (x & <- & H1). destruct Hk' as (y & E & H2). apply in_concat_nth in H1, H2.
+      destruct H1 as (b & H1). destruct H2 as (b' & H2). eapply (Hx b b' x y); eauto.
+  Qed.
+
+  Lemma get_bkt_empty n tb b : get_bkt [repeat [] n; repeat [] n] tb b = [].
+  Proof.
+    unfold get_bkt. destruct tb as [|[|tb]]; cbn [nth].
+    - clear. revert b. induction n; intros [|b]; cbn; auto.
+    - clear. revert b. induction n; intros [|b]; cbn; auto.
+    - destruct tb; destruct b; reflexivity.
+  Qed.
+
+  (** *** allocation of the new tables by the thread that holds every table-0 lock *)
+  Lemma Core_alloc g a t n v' :
+    Core g a -> all0 (a_view a t) -> has0 (a_view a t) -> fly a t = [] -> pend a t = [] -> n = 2 * S (mask g) ->
+    v_held v' = held a t -> v_mic v' = mic a t -> v_mask v' = n - 1 -> (forall tb b, v_reg v' tb b = []) ->
+    v_fly v' = [] -> v_pend v' = all_items g ->
+    Core (set_tabs (set_mask g (n - 1)) [repeat [] n; repeat [] n]) (setv a t v').
+  Proof.
+    intros Hc Hall Hh0 Hf Hp Hn Hh Hmi Hma Hreg Hfl Hpe.
+    pose proof Hc as [K1 K2 K3 K4 K5 K6 K7 K8 K9 K10 K11 K12 K13 K14 K15 K16 K17].
+    destruct Hh0 as (i0 & Hi0).
+    assert (Other : forall t0, t0 <> t -> ~ has0 (a_view a t0)).
+    { intros t0 Hne (j & Hj). apply Hne. eapply K3; [exact Hj|]. apply Hall. apply (K7 t0 0 0 j Hj). }
+    assert (Hheld : forall t0, held (setv a t v') t0 = held a t0).
+    { intros t0. destruct (Nat.eq_dec t0 t) as [->|Hne]; [now rewrite held_same|now rewrite held_other]. }
+    assert (Hmic : forall t0, mic (setv a t v') t0 = mic a t0).
+    { intros t0. destruct (Nat.eq_dec t0 t) as [->|Hne]; [now rewrite mic_same|now rewrite mic_other]. }
+    assert (Hhas0 : forall t0, has0 (a_view (setv a t v') t0) <-> has0 (a_view a t0)).
+    { intros t0. unfold has0. fold (held (setv a t v') t0). fold (held a t0). now rewrite Hheld. }
+    assert (Hall0 : forall t0, all0 (a_view (setv a t v') t0) <-> all0 (a_view a t0)).
+    { intros t0. unfold all0. fold (held (setv a t v') t0). fold (held a t0). now rewrite Hheld. }
+    set (g' := set_tabs (set_mask g (n - 1)) [repeat [] n; repeat [] n]).
+    assert (HT : forall tb b, T g' tb b = []) by (intros; unfold T, g'; cbn [tabs set_tabs]; apply get_bkt_empty).
+    assert (Hab : forall x, absent g' x) by (intros x tb Htb; rewrite HT; reflexivity).
+    assert (Hn0 : 0 < n) by lia.
+    constructor.
+    - intros l. cbn [rspin g' set_tabs set_mask]. setoid_rewrite Hheld. apply K1.
+    - intros t0 l. cbn [rspin g' set_tabs set_mask]. rewrite Hheld. apply K2.
+    - intros t1 t2 l. rewrite !Hheld. apply K3.
+    - intros l. cbn [rown g' set_tabs set_mask]. setoid_rewrite Hheld. setoid_rewrite Hmic. apply K4.
+    - intros t0 l. cbn [rown g' set_tabs set_mask]. rewrite Hheld, Hmic. apply K5.
+    - intros t0 l. rewrite Hmic, Hheld. apply K6.
+    - intros t0 gg tb i. rewrite Hheld. apply K7.
+    - intros t0. rewrite Hhas0. cbn [mask g' set_tabs set_mask]. destruct (Nat.eq_dec t0 t) as [->|Hne].
+      + rewrite setv_same. auto.
+      + intros H. exfalso. eapply Other; eauto.
+    - intros t0 tb b Htb [H0 _]. rewrite HT. destruct (Nat.eq_dec t0 t) as [->|Hne].
+      + rewrite setv_same. now rewrite Hreg.
+      + apply Hhas0 in H0. exfalso. eapply Other; eauto.
+    - cbn [tabs mask g' set_tabs set_mask]. split; [reflexivity|]. split.
+      + intros tb Htb. destruct tb as [|[|tb]]; cbn [nth]; try lia; rewrite repeat_length; lia.
+      + destruct K10 as (_ & _ & e & He & Hd). exists (2 * e). split; [lia|]. rewrite Hn, Hd. lia.
+    - intros tb b x Htb. rewrite HT. intros [].
+    - intros tb b. rewrite HT. constructor.
+    - intros b b' x y. rewrite HT. intros [].
+    - intros t0 x. destruct (Nat.eq_dec t0 t) as [->|Hne].
+      + rewrite fly_same, Hfl. intros [].
+      + rewrite fly_other by exact Hne. intros H. destruct (K14 t0 x H) as (A0 & _). exfalso. eapply Other; eauto.
+    - intros t0. destruct (Nat.eq_dec t0 t) as [->|Hne]; [rewrite fly_same, Hfl; cbn; lia|rewrite fly_other by exact Hne; apply K15].
+    - intros t0. rewrite Hall0. destruct (Nat.eq_dec t0 t) as [->|Hne]; [auto|rewrite pend_other by exact Hne; apply K16].
+    - intros t0. destruct (Nat.eq_dec t0 t) as [->|Hne].
+      + rewrite pend_same, fly_same, Hpe, Hfl. split; [eapply all_items_nodup; eauto|]. intros x _. split; [apply Hab|intros y []].
+      + rewrite pend_other, fly_other by exact Hne. destruct (K17 t0) as [A B]. split; auto.
+        intros x H. split; auto. apply (B x H).
+  Qed.
+
+
+  (** *** the abstract set *)
+  Lemma dropped_app tr tr' : dropped tr -> dropped (tr ++ tr').
+  Proof. intros (t & k & H). exists t, k. apply in_or_app. now left. Qed.
+
+  Lemma allp_ext g g' a a' :
+    (forall tb b, T g' tb b = T g tb b) -> (forall t, fly a' t = fly a t) -> (forall t, pend a' t = pend a t) ->
+    forall x, allp g' a' x <-> allp g a x.
+  Proof. intros HT Hf Hp x. unfold allp. setoid_rewrite HT. setoid_rewrite Hf. setoid_rewrite Hp. tauto. Qed.
+
+  (** nothing the abstraction reads changes *)
+  Lemma Abs_keep g g' a a' tr tr' :
+    Abs g a tr -> tabs g' = tabs g -> a_atr a' = a_atr a ->
+    (forall t, v_op (a_view a' t) = v_op (a_view a t) /\ fly a' t = fly a t /\ pend a' t = pend a t) ->
+    hist_of tr' = hist_of tr -> (dropped tr -> dropped tr') -> Abs g' a' tr'.
+  Proof.
+    intros [Hd|(s & st & H1 & H2 & H3 & H4 & H5)] Ct Ha Hv Hh Hdr; [left; auto|right].
+    exists s, st. rewrite Ha, Hh. split; auto. split; auto. split; [intros t; rewrite H3; symmetry; apply Hv|]. split; auto.
+    intros x. rewrite H5. symmetry. apply allp_ext.
+    - intros. unfold T. now rewrite Ct.
+    - intros t. apply Hv.
+    - intros t. apply Hv.
+  Qed.
+
+  (** [allp] after thread [t] replaced probe set (tb, b) and its own in-flight / pending items *)
+  Lemma allp_table g g' a t v' tb b new :
+    Core g a -> tabs g' = set_bkt (tabs g) tb b new -> tb < 2 -> b < S (mask g) ->
+    forall x, allp g' (setv a t v') x <->
+      In x new \/ (exists tb' b', tb' < 2 /\ (tb', b') <> (tb, b) /\ In x (T g tb' b')) \/
+      In x (v_fly v') \/ (exists t0, t0 <> t /\ In x (fly a t0)) \/
+      In x (v_pend v') \/ (exists t0, t0 <> t /\ In x (pend a t0)).
+  Proof.
+    intros Hc Ct Htb Hb x. destruct (c_len Hc) as (Len2 & LenT & _).
+    assert (HTs : T g' tb b = new) by (unfold T; rewrite Ct; apply get_set_bkt_same; [lia|rewrite LenT; auto]).
+    assert (HTo : forall tb' b', (tb', b') <> (tb, b) -> T g' tb' b' = T g tb' b') by (intros; unfold T; rewrite Ct; now apply get_set_bkt_other).
+    unfold allp. split.
+    - intros [(tb' & b' & H1 & H2)|[(t0 & H)|(t0 & H)]].
+      + destruct (Nat.eq_dec tb' tb) as [->|E1]; [destruct (Nat.eq_dec b' b) as [->|E2]|].
+        * left. now rewrite HTs in H2.
+        * right. left. exists tb, b'. rewrite HTo in H2 by congruence. split; auto. split; [congruence|auto].
+        * right. left. exists tb', b'. rewrite HTo in H2 by congruence. split; auto. split; [congruence|auto].
+      + destruct (Nat.eq_dec t0 t) as [->|Hne]; [rewrite fly_same in H; tauto|rewrite fly_other in H by exact Hne]. right; right; right; left; eauto.
+      + destruct (Nat.eq_dec t0 t) as [->|Hne]; [rewrite pend_same in H; tauto|rewrite pend_other in H by exact Hne]. right; right; right; right; right; eauto.
+    - intros [H|[(tb' & b' & H1 & H2 & H3)|[H|[(t0 & Hne & H)|[H|(t0 & Hne & H)]]]]].
+      + left. exists tb, b. rewrite HTs. auto.
+      + left. exists tb', b'. rewrite HTo by exact H2. auto.
+      + right. left. exists t. now rewrite fly_same.
+      + right. left. exists t0. now rewrite fly_other.
+      + right. right. exists t. now rewrite pend_same.
+      + right. right. exists t0. now rewrite pend_other.
+  Qed.
+
+  Lemma allp_split g a t tb b : tb < 2 ->
+    forall x, allp g a x <->
+      In x (T g tb b) \/ (exists tb' b', tb' < 2 /\ (tb', b') <> (tb, b) /\ In x (T g tb' b')) \/
+      In x (fly a t) \/ (exists t0, t0 <> t /\ In x (fly a t0)) \/
+      In x (pend a t) \/ (exists t0, t0 <> t /\ In x (pend a t0)).
+  Proof.
+    intros Htb x. unfold allp. split.
+    - intros [(tb' & b' & H1 & H2)|[(t0 & H)|(t0 & H)]].
+      + destruct (Nat.eq_dec tb' tb) as [->|E1]; [destruct (Nat.eq_dec b' b) as [->|E2]|].
+        * now left.
+        * right. left. exists tb, b'. split; auto. split; [congruence|auto].
+        * right. left. exists tb', b'. split; auto. split; [congruence|auto].
+      + destruct (Nat.eq_dec t0 t) as [->|Hne]; [tauto|]. right; right; right; left; eauto.
+      + destruct (Nat.eq_dec t0 t) as [->|Hne]; [tauto|]. right; right; right; right; right; eauto.
+    - intros [H|[(tb' & b' & H1 & H2 & H3)|[H|[(t0 & Hne & H)|[H|(t0 & Hne & H)]]]]]; eauto 6.
+  Qed.
+
+  (** moving items between a probe set and the thread's in-flight / pending lists does not change the set *)
+  Lemma allp_move g g' a t v' tb b new :
+    Core g a -> tabs g' = set_bkt (tabs g) tb b new -> tb < 2 -> b < S (mask g) ->
+    (forall x, In x new \/ In x (v_fly v') \/ In x (v_pend v') <-> In x (T g tb b) \/ In x (fly a t) \/ In x (pend a t)) ->
+    forall x, allp g' (setv a t v') x <-> allp g a x.
+  Proof.
+    intros Hc Ct Htb Hb Hmv x. rewrite (allp_table g g' a t v' tb b new Hc Ct Htb Hb x), (allp_split g a t tb b Htb x).
+    specialize (Hmv x). tauto.
+  Qed.
+
+  (** one annotated event more *)
+  Lemma lp_ext (atr : list (aev ISet)) c e c' :
+    lp_run lp_init atr = Some c -> lp_step c e = Some c' -> lp_run lp_init (atr ++ [e]) = Some c'.
+  Proof. intros H1 H2. rewrite lp_run_app, H1. cbn. now rewrite H2. Qed.
+
+  (** *** list bookkeeping for the multiset of held locks *)
+  Fixpoint rem1 (l : lk) (H : list lk) : list lk :=
+    match H with
+    | [] => []
+    | x :: r => if lk_dec x l then r else x :: rem1 l r
+    end.
+
+  Lemma cnt_cons_same H l : cnt (l :: H) l = S (cnt H l).
+  Proof. cbn. destruct (lk_dec l l); congruence. Qed.
+  Lemma cnt_cons_other H l l' : l' <> l -> cnt (l :: H) l' = cnt H l'.
+  Proof. intros E. cbn. destruct (lk_dec l l'); congruence. Qed.
+  Lemma cnt_rem1_same H l : cnt (rem1 l H) l = cnt H l - 1.
+  Proof.
+    induction H as [|x r IH]; cbn; auto. destruct (lk_dec x l) as [->|E]; cbn.
+    - lia.
+    - destruct (lk_dec x l); [contradiction|]. exact IH.
+  Qed.
+  Lemma cnt_rem1_other H l l' : l' <> l -> cnt (rem1 l H) l' = cnt H l'.
+  Proof.
+    intros E. induction H as [|x r IH]; cbn; auto. destruct (lk_dec x l) as [->|E1]; cbn.
+    - destruct (lk_dec l l'); congruence.
+    - destruct (lk_dec x l'); rewrite IH; reflexivity.
+  Qed.
+  Lemma in_cnt H l : In l H <-> 0 < cnt H l.
+  Proof. apply (count_occ_In lk_dec). Qed.
+  Lemma in_rem1 H l l' : In l' (rem1 l H) <-> (l' <> l /\ In l' H) \/ (l' = l /\ 1 < cnt H l).
+  Proof.
+    rewrite in_cnt. destruct (lk_dec l' l) as [->|E].
+    - rewrite cnt_rem1_same. split; [intros H0; right; split; [auto|lia]|intros [[H0 _]|[_ H0]]; [congruence|lia]].
+    - rewrite cnt_rem1_other by exact E. rewrite <- in_cnt. split; [intros H0; left; auto|intros [[_ H0]|[H0 _]]; [auto|congruence]].
+  Qed.
+
+  (** the invariant reads only the lock words, the mask and the tables *)
+  Lemma Core_same g g' a : Core g a -> rspin g' = rspin g -> rown g' = rown g -> mask g' = mask g -> tabs g' = tabs g -> Core g' a.
+  Proof.
+    intros [K1 K2 K3 K4 K5 K6 K7 K8 K9 K10 K11 K12 K13 K14 K15 K16 K17] C1 C2 C3 C4.
+    assert (HT : forall tb b, T g' tb b = T g tb b) by (intros; unfold T; now rewrite C4).
+    assert (Hab : forall x, absent g' x <-> absent g x) by (intros x; unfold absent; rewrite C3; setoid_rewrite HT; tauto).
+    constructor.
+    - rewrite C1. exact K1.
+    - rewrite C1. exact K2.
+    - exact K3.
+    - rewrite C2. exact K4.
+    - rewrite C2. exact K5.
+    - exact K6.
+    - exact K7.
+    - rewrite C3. exact K8.
+    - intros t tb b. rewrite HT. apply K9.
+    - rewrite C3, C4. exact K10.
+    - intros tb b x. rewrite HT, C3. apply K11.
+    - intros tb b. rewrite HT. apply K12.
+    - intros b b' x y. rewrite !HT. apply K13.
+    - intros t x H. rewrite Hab. apply K14; auto.
+    - exact K15.
+    - exact K16.
+    - intros t. destruct (K17 t) as [A B]. split; auto. intros x H. rewrite Hab. auto.
+  Qed.
+
 End Inv.
+
+Arguments c_spin0 {cf g a}. Arguments c_spin {cf g a}. Arguments c_excl {cf g a}. Arguments c_rown {cf g a}. Arguments c_rown2 {cf g a}.
+Arguments c_mic {cf g a}. Arguments c_range {cf g a}. Arguments c_mask {cf g a}. Arguments c_reg {cf g a}. Arguments c_len {cf g a}.
+Arguments c_placed {cf g a}. Arguments c_nodup {cf g a}. Arguments c_cross {cf g a}. Arguments c_fly {cf g a}. Arguments c_fly1 {cf g a}.
+Arguments c_pend {cf g a}. Arguments c_pend2 {cf g a}.
